@@ -9,8 +9,8 @@ Import ListNotations.
 Local Open Scope N_scope.
 
 (* the translated functions of the start line and of the header block that the message's parse calls *)
-Record line_code := mk_lnc { lc_pc : stmt; lc_parse : lstmt; lc_valid : bexp }.
-Record hdr_code := mk_hdc { hc_field : fl_code; hc_parse : hstmt; hc_valid : hexp }.
+Record line_code := mk_lnc { lc_pc : stmt; lc_parse : lstmt; lc_valid : bexp; lc_clear : stmt }.
+Record hdr_code := mk_hdc { hc_field : fl_code; hc_parse : hstmt; hc_valid : hexp; hc_clear : hstmt }.
 
 Record mstore := mk_ms { ms_line : store; ms_hdr : hstore; ms_valid : N }.
 Record mstate := mk_mst { m_store : mstore; m_in : str }.
@@ -27,7 +27,9 @@ Inductive mstmt :=
   | MSeq (a b : mstmt)
   | MIf (c : mexp) (t e : mstmt)
   | MReturn (e : mexp)
-  | MSet (e : mexp).                         (* valid_ = e *)
+  | MSet (e : mexp)                          (* valid_ = e *)
+  | MLineClear                               (* line::clear() *)
+  | MHdrClear.                               (* headers_.clear() *)
 
 Section Msg.
   Variable llim : nat -> N.                  (* the limits of the start line *)
@@ -72,6 +74,15 @@ Section Msg.
         match meval e s with
         | Some (v, s1) => Some (LNormal, mk_mst (mk_ms (ms_line (m_store s1)) (ms_hdr (m_store s1)) (b2n v)) (m_in s1))
         | None => None
+        end
+    | MLineClear =>
+        let st := m_store s in
+        Some (LNormal, mk_mst (mk_ms (snd (exec llim 0 (lc_clear lc) (ms_line st))) (ms_hdr st) (ms_valid st)) (m_in s))
+    | MHdrClear =>
+        let st := m_store s in
+        match hexec flim hlim (hc_field hc) fuel (hc_clear hc) (mk_hst (ms_hdr st) (m_in s)) with
+        | Some (LNormal, s1) => Some (LNormal, mk_mst (mk_ms (ms_line st) (h_store s1) (ms_valid st)) (m_in s))
+        | _ => None
         end
     end.
 
